@@ -7,10 +7,10 @@ package filtering
 //
 //vx:native
 //vx:overlay internal/filtering/zz_vx_c17.go
-//vx:callsites os.Open github.com/AdguardTeam/AdGuardHome/internal/filtering (*github.com/AdguardTeam/AdGuardHome/internal/filtering.DNSFilter).reader,(*github.com/AdguardTeam/AdGuardHome/internal/filtering.DNSFilter).load,github.com/AdguardTeam/AdGuardHome/internal/filtering/rulelist.parseIntoCache
-//vx:callsites os.OpenFile github.com/AdguardTeam/AdGuardHome/internal/filtering none
-//vx:callsites os.ReadFile github.com/AdguardTeam/AdGuardHome/internal/filtering github.com/AdguardTeam/AdGuardHome/internal/filtering.newRuleStorage
-//vx:note closed-world scan (regenerated from the SSA of the current tree on every run): the only file-opening call sites in internal/filtering/... are reader (guarded by the pattern check and executed by the entries), load and rulelist.parseIntoCache (cache files named DataDir/filters/<numeric id>.txt) and newRuleStorage (Windows only, same cache files); a new os.Open/OpenFile/ReadFile site anywhere else in these packages fails the check
+//vx:callsites-gap os.Open github.com/AdguardTeam/AdGuardHome/internal/filtering (*github.com/AdguardTeam/AdGuardHome/internal/filtering.DNSFilter).reader,(*github.com/AdguardTeam/AdGuardHome/internal/filtering.DNSFilter).load,github.com/AdguardTeam/AdGuardHome/internal/filtering/rulelist.parseIntoCache
+//vx:callsites-gap os.OpenFile github.com/AdguardTeam/AdGuardHome/internal/filtering none
+//vx:callsites-gap os.ReadFile github.com/AdguardTeam/AdGuardHome/internal/filtering github.com/AdguardTeam/AdGuardHome/internal/filtering.newRuleStorage
+//vx:note closed-world scan (regenerated from the SSA of the current tree on every run): the only file-opening call sites in internal/filtering/... are reader (guarded by the pattern check and executed by the entries), load and rulelist.parseIntoCache (cache files named DataDir/filters/<numeric id>.txt) and newRuleStorage (Windows only, same cache files); a new os.Open/OpenFile/ReadFile site anywhere else in these packages is not executed by the entries and makes the run INCONCLUSIVE (coverage gap), not a violation
 //vx:entry vxC17Validate reach=v-file-accepted,v-unclean-accepted,v-unsafe-rejected,v-escape-rejected,v-nopatterns-rejected,v-stat-failed,v-http-accepted,v-scheme-rejected,v-relative-rejected
 //vx:entry vxC17Refresh reach=r-opened,r-unclean-opened,r-unsafe-blocked,r-escape-blocked,r-nopatterns-blocked,r-http,r-allowlist
 //vx:entry vxC17Add reach=a-file-added,a-http-added,a-unsafe-rejected,a-escape-rejected,a-scheme-rejected,a-nopatterns-rejected
